@@ -356,6 +356,22 @@ pub fn serde(rng: &mut Rng, n: usize, sink: &mut Sink) {
             sink.fail(&["C19"], format!("arbitrary from {}: {:?}/{:?} vs <&str>'s {:?}/{:?}", hex(&data), a, a2, b, b2));
             break;
         }
+        // a transparent wrapper also *consumes* what `&str` consumes: draw twice from one `Unstructured`
+        // and compare both texts and what is left
+        {
+            let mut ul = Unstructured::new(&data);
+            let mut us = Unstructured::new(&data);
+            let l1 = LeanString::arbitrary(&mut ul).ok().map(|s| s.as_str().to_string());
+            let s1 = <&str>::arbitrary(&mut us).ok().map(|s| s.to_string());
+            let (rl, rs) = (ul.len(), us.len());
+            let l2 = LeanString::arbitrary(&mut ul).ok().map(|s| s.as_str().to_string());
+            let s2 = <&str>::arbitrary(&mut us).ok().map(|s| s.to_string());
+            evals += 2;
+            if l1 != s1 || rl != rs || l2 != s2 {
+                sink.fail(&["C19"], format!("arbitrary, two draws from {}: {:?} then {:?} ({} bytes left after the first) vs <&str>'s {:?} then {:?} ({} left)", hex(&data), l1, l2, rl, s1, s2, rs));
+                break;
+            }
+        }
     }
     sink.oracle.evaluations += evals;
     sink.oracle.distinct_nontrivial += evals;
